@@ -19,7 +19,7 @@ func c17ValidateBeforeReplicate(r *core.Run) {
 		return
 	}
 	f := fn.SSA
-	sends := findInstrs(f, true, callTo(fnRedisProcess))
+	sends := findInstrs(f, true, viaHelpers(r.P, f, callTo(fnRedisProcess)))
 	r.Floor("validate-before-replicate", len(sends), 1)
 	validators := findInstrs(f, false, callTo(fnPutEntryFrag))
 	// an explicit validation helper would also do: any call whose result can be ErrKeyTooLarge
